@@ -54,6 +54,8 @@ def main(tier):
         if not c["exact"]:
             if len(lead) >= 2 and rng.random() < 0.3:
                 c["layout"] = "transposed"
+            elif lead and rng.random() < 0.12:
+                c["layout"] = "expanded"
             if act == "float" and rng.random() < 0.3:
                 c["xmag"] = rng.choice([30.0, 100.0])  # large unscaled sums: accumulation must not overflow the output dtype early
         cases.append(c)
@@ -64,6 +66,8 @@ def main(tier):
              "aq": rng.choice(["qint8", "qint8", "qfloat8_e4m3fn"]), "a_q": rng.random() < 0.8, "b_q": rng.random() < 0.8}
         if not (c["a_q"] or c["b_q"]):
             c["a_q"] = True
+        if rng.random() < 0.15:
+            c["layout"] = "expanded"
         cases.append(c)
     # directed: float8 x float8 with float16 scales accumulates in float16 (F13); bf16 x int8 with in%16 != 0 (F14)
     cases.append({"id": len(cases), "seed": 1, "op": "linear", "dtype": "float16", "act": "qfloat8_e4m3fn", "wq": "qfloat8_e4m3fn", "lead": [2], "in": 512, "out": 4, "bias": False, "ones": 12.0, "directed": "f16 accumulation"})
@@ -74,6 +78,9 @@ def main(tier):
         cases.append({"id": len(cases), "seed": 4 + k, "op": "linear", "dtype": "float16", "act": "float", "wq": wq_, "lead": [3], "in": 256, "out": 8, "bias": False, "xmag": 100.0, "exact": False})
     # directed: transposed (non-contiguous) quantized activations on the integer GEMM route; inputs without batch dimensions
     cases.append({"id": len(cases), "seed": 8, "op": "linear", "dtype": "float32", "act": "qint8", "wq": "qint8", "lead": [3, 5], "in": 16, "out": 8, "bias": True, "layout": "transposed", "exact": False})
+    # directed: broadcast (expanded, stride-0) quantized activations on the integer GEMM routes
+    cases.append({"id": len(cases), "seed": 11, "op": "linear", "dtype": "float32", "act": "qint8", "wq": "qint8", "lead": [24], "in": 32, "out": 16, "bias": False, "layout": "expanded", "exact": False})
+    cases.append({"id": len(cases), "seed": 12, "op": "mm", "dtype": "float32", "n": 24, "m": 32, "p": 16, "batch": 2, "aq": "qint8", "a_q": True, "b_q": True, "layout": "expanded"})
     cases.append({"id": len(cases), "seed": 9, "op": "linear", "dtype": "float32", "act": "float", "wq": "qint8", "lead": [], "in": 16, "out": 8, "bias": True, "exact": False})
     cases.append({"id": len(cases), "seed": 10, "op": "linear", "dtype": "float32", "act": "qint8", "wq": "qint8", "lead": [], "in": 16, "out": 8, "bias": False, "exact": False})
     res = []
